@@ -50,6 +50,11 @@ def peer_datagram(p, who, kind):
         if d is None:
             return None
         return d, (peer.my_crypto if me.state != S.INIT_REQ_SENT else None)
+    if kind in ('rekey_again', 'rekey_delete'):
+        # `who` answered an IKE_SA rekey (state REKEYED): the rekey request once more / the delete of the old IKE_SA, under the OLD keys
+        if me.state != S.REKEYED:
+            return None
+        return (p.rekey_request if kind == 'rekey_again' else p.rekey_delete), peer.my_crypto
     if peer.state != S.ESTABLISHED:
         return None
     if kind == 'dpd':
@@ -279,6 +284,11 @@ def build_instances(tier):
                                      native=nat(h_window),
                                      must_reach=[('a handler ran', lambda o: o[:2] == ['step', 'ran']),
                                                  ('silent drop', lambda o: o == ['step', 'idle', 'silent'])]))
+    for who in ('A', 'B'):
+        for kind in ('rekey_again', 'rekey_delete'):
+            inst.append(Instance(f'window {who} REKEYED <- {kind}', h_window, (who, 'REKEYED', kind, False), native=nat(h_window),
+                                 must_reach=[('a handler ran', lambda o: o[:2] == ['step', 'ran']), ('cached reply', lambda o: o == ['step', 'idle', 'reply'])]))
+            inst.append(Instance(f'two deliveries {who} REKEYED <- {kind}', h_two, (who, 'REKEYED', kind), native=nat(h_two)))
     # the INIT_RES_SENT responder: retransmitted IKE_SA_INIT request (cleartext) and the IKE_AUTH request
     for who, st, kind in (('B', 'INIT_RES_SENT', 'auth_req'), ('B', 'INIT_RES_SENT', 'init_req')):
         inst.append(Instance(f'window {who} {st} <- {kind}', h_window_early, (kind,), native=nat(h_window_early),
